@@ -127,6 +127,21 @@ func Run(c *core.Ctx, replay string) (*core.Result, error) {
 			regs := dims.RandomFile(rng, 1+rng.Intn(5), true)
 			cases = append(cases, Case{Case: k + 1, Regs: regs})
 		}
+		// route files with ONE endpoint whose only typed part is its query parameters (or its JSON form field):
+		// every type the client mentions must be declared even when nothing else in the file needs it
+		for _, q := range dims.Queries {
+			if len(q) == 0 {
+				continue
+			}
+			cases = append(cases, Case{Case: len(cases) + 1, Regs: []routes.Reg{{Verb: "GET", Path: []string{"lit:/only"}, Handler: "method", Input: "none",
+				Query: q, Form: routes.Form{Values: []string{}}, Ret: "none"}}})
+		}
+		for _, f := range dims.Forms {
+			if f.JSON != "" {
+				cases = append(cases, Case{Case: len(cases) + 1, Regs: []routes.Reg{{Verb: "POST", Path: []string{"lit:/form"}, Handler: "func", Input: "none",
+					Query: []string{}, Form: f, Ret: "none"}}})
+			}
+		}
 	}
 	var out workIn
 	const chunk = 100
